@@ -8,7 +8,7 @@ spec fn name_of(src: Option<Token>) -> Option<Seq<char>> {
 /// generated column = UTF-16 length of everything written before the token text, separator included)
 spec fn token_appended(new: &StyleSheetOutput, old: &StyleSheetOutput, token: StepToken, src: Option<Token>) -> bool {
     let sep = needs_sep(old.prev_ser_type, ser_type(token.token));
-    &&& new.s@ == old.s@ + sep_seq(sep) + css_text(token.token)
+    &&& new.s@ == old.s@ + sep_seq(sep) + out_text(token.token)
     &&& new.prev_ser_type == ser_type(token.token)
     &&& new.source_id == old.source_id
     &&& new.source_map.entries@ == old.source_map.entries@.push(MapEntry {
